@@ -97,7 +97,9 @@ def wl_heavy(ctx, rng, case):
                 ret = hh.add(k, n)
             else:
                 case.op("add_alt", k, n)
-                ret = hh.add_alt(k, hh.hashes(k), n)
+                arg, cp = bl.alt_arg(ctx, hh.hashes(k))
+                ret = hh.add_alt(k, arg, n)
+                bl.arg_unchanged(ctx, arg, cp, "add_alt")
             last[k] = ret
             if qtype != "mean-min":
                 ctx.check(ret == hh.check(k), f"value returned by add differs from check() at step {step}", key=k, returned=ret)
@@ -196,7 +198,9 @@ def wl_threshold(ctx, rng, case):
                 ret = st.add(k, n)
             else:
                 case.op("add_alt", k, n)
-                ret = st.add_alt(k, st.hashes(k), n)
+                arg, cp = bl.alt_arg(ctx, st.hashes(k))
+                ret = st.add_alt(k, arg, n)
+                bl.arg_unchanged(ctx, arg, cp, "add_alt")
             true[k] += n
             if k in last and last[k] >= T and ret < T:
                 drops += 1
@@ -211,7 +215,9 @@ def wl_threshold(ctx, rng, case):
                 ret = st.remove(k, n)
             else:
                 case.op("remove_alt", k, n)
-                ret = st.remove_alt(k, st.hashes(k), n)
+                arg, cp = bl.alt_arg(ctx, st.hashes(k))
+                ret = st.remove_alt(k, arg, n)
+                bl.arg_unchanged(ctx, arg, cp, "remove_alt")
             true[k] -= n
             if k in last and last[k] >= T and ret < T:
                 drops += 1
